@@ -531,7 +531,10 @@ def run_check(prop, tier, scn_name=None):
     print('runs=%d steps=%d distinct_histories=%d nontrivial=%d states=%d faults=%s wall=%.1fs'
           % (agg['runs'], agg['steps'], len(hists), len(nontrivial), len(states),
              json.dumps(agg['faults'], sort_keys=True), wall))
-    if harness_err:
+    if harness_err and status == 1:
+        # some violations replay exactly (reported above); one that was observed but does not replay is mentioned, not claimed
+        print('UNREPRODUCED property=%s (observed during the search, not claimed): %s' % (prop, harness_err))
+    elif harness_err:
         print('HARNESS-ERROR property=%s %s' % (prop, harness_err))
         return 2
     if status == 0 and missing:
@@ -585,7 +588,10 @@ def write_evidence(prop, tier, verif_seed, scn, agg, hists, nontrivial, states, 
             'components': {'real': ['lentil (working tree of %s)' % lentil_root(), 'numpy', 'scipy'],
                            'simulated': ['callers', 'caller-owned buffers', 'call schedule',
                                          'numpy global RNG seeding', 'DFT coordinate cache size',
-                                         'process history (fork per chunk, cold/warm audit, pristine-process evaluator)'],
+                                         'process history (fork per chunk, cold/warm audit, pristine-process evaluator)',
+                                         'process-wide policy (numpy error state / print options, warnings filters, recursion limit, environment)',
+                                         'object lifetime (build-use-drop series inside one step)',
+                                         'a second interpreter with another string-hash seed saving objects that are loaded here (C08)'],
                            'stub': []},
             'known_findings_seen': known_seen,
             'explanation': expl,
